@@ -70,6 +70,7 @@ func checkC16(c *core.Ctx) error {
 	}
 	checkCategoricalEstimator(c, p, d)
 	checkRescaleSurvives(c)
+	checkRunningMaxInit(c)
 	checkEmWiring(c)
 	c.Analysed["closed_form_estimators"] = len(estTable) + 1
 	// ---- R3 the mixture EM step is the textbook E-step / M-step
